@@ -449,8 +449,8 @@ func (t *Tree) Clades() map[string]*Node {
 type Metric int
 
 const (
-	MLen  Metric = iota // branch length, absent = 0
-	MOne                // 1 per branch
+	MLen Metric = iota // branch length, absent = 0
+	MOne               // 1 per branch
 )
 
 // Dist returns all tip-to-tip path sums keyed "a\x00b" (a<b).
